@@ -70,6 +70,7 @@ func init() {
 			c.rulePruneStructure()
 			c.ruleFinaliseGuards()
 			c.min("R-FINALISE", 6)
+			c.ruleStoreAfterAdd()
 		})
 }
 
